@@ -8,6 +8,8 @@ import CharsetProof.Props.Full
 import CharsetProof.Props.C13h
 import CharsetProof.Props.C09
 import CharsetProof.Props.C04b
+import CharsetProof.Props.C01b
+import CharsetProof.Props.C04
 set_option linter.unusedSectionVars false
 namespace Charset
 
@@ -105,5 +107,27 @@ theorem detection_full_verdicts (menv : Md.MdEnv) (cenv : Coh.CohEnv) (o : Oracl
   obtain ⟨incl, excl, hincl, hexcl⟩ := fromBytes_ok_canon h
   exact ⟨fun m hm x hx hsup => C09_restricted_full menv cenv o hincl hexcl hb h hm hx hsup,
          fun hfb hi he hv => C04_valid_utf8_full menv cenv o hb hfb hi he hv h⟩
+
+/-- C01 (ascii clause) for the fully modelled world, inputs that fit the window: a candidate named `ascii` means every
+    byte of the input is below 0x80 (beyond the window the clause is false of the pinned tree – known finding) -/
+theorem C01_ascii_fit_full (menv : Md.MdEnv) (cenv : Coh.CohEnv) (o : Oracle)
+    {b : Bytes} {s : Settings} {incl excl : List Name}
+    (hincl : canonList ianaNow s.incl = .ok incl) (hexcl : canonList ianaNow s.excl = .ok excl)
+    (hfit : Fits b s)
+    {ms : List (Match Name Name)} (hb : b ≠ [])
+    (h : fromBytes (worldFull menv cenv o) tablesNow sortMatches b s = .ok (.ok ms)) :
+    ∀ m ∈ ms, ∀ c ∈ m.entries, c.enc = tablesNow.ascii → b.all (· < 128) = true :=
+  C01_ascii_fit_partial sortMatches_perm marksMultiByte_now (lazyLaws_full menv cenv o) (hchars_full menv cenv o)
+    (by decide +kernel) (asciiLaw_now o) hincl hexcl hfit hb h
+
+/-- C04 (threshold or the single last-resort candidate), fully modelled world, with the fallback's fields -/
+theorem C04_threshold_full (menv : Md.MdEnv) (cenv : Coh.CohEnv) (o : Oracle) {b : Bytes} {s : Settings}
+    {ms : List (Match Name Name)} (hb : b ≠ [])
+    (h : fromBytes (worldFull menv cenv o) tablesNow sortMatches b s = .ok (.ok ms)) :
+    (∀ m ∈ ms, Fl.ge m.chaos s.thr = false ∧ ∀ c ∈ m.entries, Fl.ge c.chaos s.thr = false) ∨
+    (∃ fb, ms = [fb] ∧ fb.subs = [] ∧ fb.chaos = s.thr ∧ s.fallback = true ∧ fb.enc ∈ hintsOf tablesNow b s ∧
+      fb.cohs = [] ∧ fb.bom = false) := by
+  obtain ⟨incl, excl, hincl, hexcl⟩ := fromBytes_ok_canon h
+  exact C04_threshold sortMatches_perm hincl hexcl hb h
 
 end Charset
